@@ -77,6 +77,13 @@ pub fn gen(tier: &str, rng: &mut Rng, out: &mut Vec<String>) {
         }
         // break offsets inside push data (depth zero) and beyond the end
         for p in inside.iter().take(6) { out.push(format!("c17.split {} {} {} {}", hexd(s), flags, p, g.oracle)); out.push(format!("c17.break {} {} {} {}", hexd(s), flags, p, g.oracle)); }
+        // two or three break offsets inside the SAME push (the second segment is then resumed beyond its own break offset),
+        // and break lists that are not increasing (a later break at or before the offset already reached)
+        for w in inside.windows(2).take(4) { out.push(format!("c17.split {} {} {},{} {}", hexd(s), flags, w[0], w[1], g.oracle)); }
+        for w in inside.windows(3).take(2) { out.push(format!("c17.split {} {} {},{},{} {}", hexd(s), flags, w[0], w[1], w[2], g.oracle)); }
+        if b0.len() >= 2 { let i = rng.below(b0.len() as u64 - 1) as usize + 1; let j = rng.below(i as u64) as usize;
+            out.push(format!("c17.split {} {} {},{} {}", hexd(s), flags, b0[i], b0[j], g.oracle));
+            out.push(format!("c17.split {} {} {},{},{} {}", hexd(s), flags, b0[i], b0[j], b0[i], g.oracle)); }
         for extra in [0usize, 1, 7] { out.push(format!("c17.break {} {} {} {}", hexd(s), flags, s.len() + extra, g.oracle)); out.push(format!("c17.split {} {} {} {}", hexd(s), flags, s.len() + extra, g.oracle)); }
         if let Some(b) = b0.get(rng.below(b0.len() as u64) as usize) { out.push(format!("c17.break {} {} {} {}", hexd(s), flags, b, g.oracle)); }
     }
